@@ -4,6 +4,7 @@ import Mathlib.Algebra.Order.AbsoluteValue.Basic
 import Mathlib.Algebra.Order.Field.Rat
 import Mathlib.Algebra.Order.Field.Basic
 import Mathlib.Tactic.Linarith
+import Mathlib.Data.Nat.Sqrt
 /-
 C01 — linear systems are solved through every entry point.
 Theorems about the model of src/linalg/utils.rs (`solve`, `solve_sys`, `invert_matrix`, layout
@@ -14,9 +15,20 @@ set_option linter.unusedSectionVars false
 namespace Cv.C01
 open Cv Cv.LA
 
-/-- exact rationals with a placeholder `sqrt` (only `sqrt 1` is ever taken below) -/
+/-- Exact square root on `ℚ` where it exists: the root of a perfect-square rational (numerator and
+denominator both perfect squares), and the argument itself otherwise.  Kernel-reducible (`Nat.sqrt`). -/
+def ratSqrt (x : ℚ) : ℚ :=
+  if 0 ≤ x ∧ Nat.sqrt x.num.natAbs * Nat.sqrt x.num.natAbs = x.num.natAbs ∧ Nat.sqrt x.den * Nat.sqrt x.den = x.den
+  then (Nat.sqrt x.num.natAbs : ℚ) / (Nat.sqrt x.den : ℚ) else x
+
+/-- Exact rationals, used ONLY for the concrete `decide` witnesses of C01 / C11 (and of the files that
+import them).  `abs` is the absolute value; `sqrt` is `ratSqrt`, i.e. the true square root on perfect
+squares — every witness below takes roots of perfect squares only (`ratSqrt_witness` shows the values),
+so the displayed factors are genuine.  On a non-square `sqrt` returns its argument; no theorem is
+instantiated at this instance with a hypothesis about `sqrt` (`hsqrt`/`SqrtExactOn` are hypotheses of
+the generic theorems, never discharged here).  The remaining fields are unused placeholders. -/
 instance instTranscRat : Cv.Transc ℚ where
-  sqrt x := x
+  sqrt := ratSqrt
   exp x := x
   ln x := x
   pow x _ := x
@@ -27,6 +39,8 @@ instance instTranscRat : Cv.Transc ℚ where
   floor x := x
   ceil x := x
 
+theorem ratSqrt_witness : ratSqrt 0 = 0 ∧ ratSqrt 1 = 1 ∧ ratSqrt 4 = 2 ∧ ratSqrt 9 = 3 ∧ ratSqrt (9 / 4) = 3 / 2 ∧
+    ratSqrt (1 / 16) = 1 / 4 := by decide +kernel
 
 /-! ### 1. layout conversions are transposes and mutually inverse -/
 section layout
